@@ -13,8 +13,19 @@ from .model import (BitArr, ClassInfo, ClassRef, EnumMember, FuncInfo, FuncRef, 
 # ------------------------------------------------------------------------------------------------ helpers
 
 
+class ANeg:
+    """the negative of a NON-ZERO abstract magnitude (sign-magnitude view of a negative integer); only abs(), comparison
+    with 0 and multiplication by +-1 are modelled, anything else fails closed"""
+
+    def __init__(self, mag):
+        self.mag = mag
+
+    def __repr__(self):
+        return f"ANeg({self.mag!r})"
+
+
 def is_abs(v):
-    return isinstance(v, (AExt, ABits, AInt, AEnum, AObj, ATable, AView, ACond, AOpq, AFn, AFin, ASumVec)) or \
+    return isinstance(v, (AExt, ABits, AInt, AEnum, AObj, ATable, AView, ACond, AOpq, AFn, AFin, ASumVec, ANeg)) or \
         (isinstance(v, tuple) and any(is_abs(x) for x in v))
 
 
@@ -109,6 +120,19 @@ def binop(fr, op, l, r, node):
     I = fr.I
     if isinstance(l, AOpq) or isinstance(r, AOpq):
         return I.opaque("binop with opaque")
+    if isinstance(l, ANeg) or isinstance(r, ANeg) or (isinstance(op, ast.Mult) and (isinstance(l, AInt) and r == -1 and not isinstance(r, bool)
+                                                                                    or isinstance(r, AInt) and l == -1 and not isinstance(l, bool))):
+        a, b = (l, r) if is_abs(l) else (r, l)
+        if isinstance(op, ast.Mult) and isinstance(b, int) and not isinstance(b, bool) and b in (1, -1):
+            if isinstance(a, ANeg):
+                return a.mag if b == -1 else a
+            c = const_of(fr, a)
+            if c is not None:
+                return c * b
+            if b == -1:
+                return ANeg(a) if _nonzero(fr, a) else I.opaque("negation of an abstract int that may be zero")
+            return a
+        raise Abort(f"arithmetic on a negative abstract int at {fr.fi.module.relpath}:{node.lineno}")
     if isinstance(op, ast.MatMult):
         v = matvec(fr, l, r)
         if v is not None:
@@ -318,8 +342,27 @@ def _w(a: AInt):
 # ------------------------------------------------------------------------------------------------ comparisons
 
 
+def _nonzero(fr, a) -> bool:
+    """is the abstract int provably non-zero on this path (some bit is the constant 1)"""
+    return isinstance(a, AInt) and any(isinstance(b, F) and b.is_const and b.c == 1 for b in fr.I.simp_bits(a.bits))
+
+
 def compare(fr, op, l, r, node):
     I = fr.I
+    if isinstance(l, ANeg) or isinstance(r, ANeg):
+        a, b, flip = (l, r, False) if isinstance(l, ANeg) else (r, l, True)
+        if isinstance(b, int) and not isinstance(b, bool) and b >= 0 and not isinstance(op, (ast.In, ast.NotIn, ast.Is, ast.IsNot)):
+            # negative < every non-negative constant
+            less = True
+            if isinstance(op, (ast.Lt, ast.LtE)):
+                return less != flip
+            if isinstance(op, (ast.Gt, ast.GtE)):
+                return (not less) != flip
+            if isinstance(op, ast.Eq):
+                return False
+            if isinstance(op, ast.NotEq):
+                return True
+        raise Abort(f"comparison of a negative abstract int at {fr.fi.module.relpath}:{node.lineno}")
     if isinstance(op, (ast.In, ast.NotIn)):
         if isinstance(r, (list, tuple, set, frozenset)) and isinstance(l, AInt) and l.ext is None and (l.isbool or len(l.bits) == 1) \
                 and r and all(isinstance(x, (bool, int)) and x in (0, 1) for x in r):
@@ -422,11 +465,18 @@ def compare(fr, op, l, r, node):
         if isinstance(op, ast.Lt) and rc <= 0:
             return False
         if l.ext is None:
-            mx = (1 << len(l.bits)) - 1
+            # bounds from the bits that are constant on this path: lo (free bits 0) <= x <= mx (free bits 1)
+            sb = I.simp_bits(l.bits)
+            mx = sum(1 << j for j, b in enumerate(sb) if not (isinstance(b, F) and b.is_const and b.c == 0))
+            lo = sum(1 << j for j, b in enumerate(sb) if isinstance(b, F) and b.is_const and b.c == 1)
             if isinstance(op, ast.Lt) and rc > mx or isinstance(op, ast.LtE) and rc >= mx:
                 return True
             if isinstance(op, ast.Gt) and rc >= mx or isinstance(op, ast.GtE) and rc > mx:
                 return False
+            if isinstance(op, ast.Lt) and rc <= lo or isinstance(op, ast.LtE) and rc < lo:
+                return False
+            if isinstance(op, ast.Gt) and rc < lo or isinstance(op, ast.GtE) and rc <= lo:
+                return True
         from .model import CMP
         v = try_lift(CMP[type(op)], l, rc)
         if v is not None:
@@ -499,6 +549,23 @@ def eq(fr, l, r, node):
             if all(isinstance(x, F) and x.is_const for x in d):
                 return True
             return ACond("eqseq", ABits(a, "seq"), ABits(b, "seq"))
+        if l.kind == "bitstr" and isinstance(r, str):
+            # a text of binary digits against a literal: equal iff every digit matches (decided exactly, may fork)
+            if len(l.items) != len(r):
+                return False
+            forms, want = [], 0
+            for i, (it, ch) in enumerate(zip(l.items, r)):
+                if it is BINSTR_PREFIX:
+                    if ch != "0b"[min(i, 1)] or i > 1:
+                        return False
+                    continue
+                if ch not in "01":
+                    return False
+                forms.append(it)
+                want = (want << 1) | int(ch)
+            if not forms:
+                return True
+            return I.decide_eq(forms, want, f"{fr.fi.name}:{getattr(node, 'lineno', 0)}:digits")
         return False
     if isinstance(l, ACond) or isinstance(r, ACond):
         if isinstance(l, ACond) and isinstance(r, bool):
@@ -1015,6 +1082,13 @@ def b_int(fr, args, kw, n):
         return fin_lift(int, v)
     if isinstance(v, (AInt,)):
         return AInt(v.bits, v.ext, v.interp)
+    if isinstance(v, ABits) and v.kind == "bitstr":
+        base = args[1] if len(args) > 1 else kw.get("base", 10)
+        if base != 2 or any(x is BINSTR_PREFIX for x in v.items):
+            raise Abort("int() of a symbolic digit string in another base than 2")
+        if not v.items:
+            raise PathRaise("ValueError", "invalid literal for int() with base 2: ''")
+        return AInt(list(reversed(v.items)))
     if isinstance(v, ACond):
         return fr.to_int(v)
     if isinstance(v, AOpq):
@@ -1161,7 +1235,7 @@ BUILTIN_NAMES = {
     "bytearray": b_bytearray, "list": b_list, "tuple": b_tuple, "range": b_range, "enumerate": b_enumerate,
     "zip": b_zip, "reversed": b_reversed, "print": b_print, "hasattr": b_hasattr, "divmod": b_divmod,
     "sum": b_sum, "type": b_type, "str": b_str, "repr": b_str, "min": b_opaque("min"), "max": b_opaque("max"),
-    "abs": lambda fr, args, kw, n: (fin_lift(abs, args[0]) if isinstance(args[0], AFin) else (args[0] if isinstance(args[0], AInt) else b_opaque("abs")(fr, args, kw, n))), "sorted": b_opaque("sorted"), "float": b_opaque("float"), "round": b_opaque("round"),
+    "abs": lambda fr, args, kw, n: (fin_lift(abs, args[0]) if isinstance(args[0], AFin) else (args[0].mag if isinstance(args[0], ANeg) else (args[0] if isinstance(args[0], AInt) else b_opaque("abs")(fr, args, kw, n)))), "sorted": b_opaque("sorted"), "float": b_opaque("float"), "round": b_opaque("round"),
     "set": b_list, "frozenset": b_list, "any": b_opaque("any"), "all": b_opaque("all"), "dict": None,
 }
 BUILTINS = {}
@@ -1191,7 +1265,39 @@ BUILTINS[type] = b_type
 BUILTINS[repr] = b_str
 BUILTINS[round] = b_opaque("round")
 BUILTINS[hex] = b_opaque("hex")
-BUILTINS[bin] = b_opaque("bin")
+def b_bin(fr, args, kw, n):
+    """bin(x) of a non-negative abstract integer: the text '0b' + binary digits.  The number of digits depends on the value:
+    the position of the leading one is decided bit by bit from the top (one path per length), the digits below it stay symbolic.
+    Result: ABits of kind 'bitstr' (a str of '0'/'1' characters, one bit form per character) with the '0b' prefix kept as two
+    marker items."""
+    v = args[0]
+    if isinstance(v, bool) or not isinstance(v, (int, AInt)):
+        if isinstance(v, AFin):
+            return fin_lift(bin, v)
+        return fr.I.opaque("bin() of a non-integer")
+    if isinstance(v, int):
+        return bin(v)
+    I = fr.I
+    c = const_of(fr, v)
+    if c is not None:
+        return bin(c)
+    if v.ext is not None or v.signed or len(v.bits) > 64:
+        return I.opaque("bin() of an unbounded / signed abstract int")
+    length = 1
+    for j in range(len(v.bits) - 1, 0, -1):
+        if I.decide_eq([v.bits[j]], 1, f"bin-width:{n.lineno}:bit{j}"):
+            length = j + 1
+            break
+    return ABits([BINSTR_PREFIX, BINSTR_PREFIX] + v.msb_first(length), "bitstr")
+
+
+class _Prefix:
+    def __repr__(self):
+        return "<0b>"
+
+
+BINSTR_PREFIX = _Prefix()
+BUILTINS[bin] = b_bin
 BUILTINS[format] = b_opaque("format")
 
 
@@ -1305,6 +1411,15 @@ def method(fr, base, name, args, kw, n):
         if name == "bit_length":
             return I.opaque("bit_length")
         raise Abort(f"int method {name}")
+    if base is int and name == "to_bytes" and args:
+        # unbound spelling int.to_bytes(x, ...)
+        x = args[0]
+        if isinstance(x, bool):
+            x = int(x)
+        if isinstance(x, int):
+            x = AInt([cbit((x >> j) & 1) for j in range(max(x.bit_length(), 1))]) if x >= 0 else x
+        if isinstance(x, AInt):
+            return method(fr, x, "to_bytes", list(args[1:]), kw, n)
     if base is int and name == "from_bytes":
         v = args[0]
         order = kw.get("byteorder", args[1] if len(args) > 1 else "big")
